@@ -121,7 +121,7 @@ ProjCases(u) == {[k |-> "proj", variant |-> v, shape |-> s, wave |-> w, amp |-> 
                 w \in {"random", "real", "sparse_spectrum", "plane", "delta", "zero"}, a \in {"random", "with_zeros", "own", "constant"}, d \in BOOLEAN}
 UpdateCases(u) == {[k |-> "update", shape |-> s, obj |-> <<s[1] + o[1], s[2] + o[2]>>, pos |-> p, alpha |-> al, beta |-> be, step |-> st, fix_probe |-> fp,
                  pcorr |-> pcr, double |-> d, probe |-> pr] :
-                s \in Shapes, o \in {<<0, 0>>, <<5, 3>>}, p \in {"integer", "wrapping", "half", "half_b", "fractional"}, al \in {"zero", "small", "half", "one"},
+                s \in Shapes, o \in {<<0, 0>>, <<5, 3>>}, p \in {"integer", "wrapping", "half", "half_b", "fractional", "fractional_y_only", "fractional_x_only"}, al \in {"zero", "small", "half", "one"},
                 be \in {"zero", "half", "one"}, st \in {"one", "half"}, fp \in BOOLEAN, pcr \in BOOLEAN, d \in BOOLEAN, pr \in {"built", "random"}}
 (* input: explicit positions with a flat stack, a 4-D stack with a raster built from the step sizes, or a 4-D stack WITH explicit positions *)
 ReconCases(u) == {[k |-> "recon", J |-> j, iters |-> i, empty |-> e, prepos |-> pp, preprobe |-> pb, double |-> d, raster |-> (inp = "raster"),
